@@ -1,4 +1,5 @@
 import Stbem.Lemmas.AssemblyPaths
+import Std.Data.String.ToNat
 /-! Helper lemmas for C17: the cache state machine (invariant, transparency of a history) and the
 injectivity of the hashed text of `Stbem.Model.Assembly`. -/
 namespace Stbem.Assembly
@@ -206,8 +207,9 @@ theorem listStr_inj {repr : E → List Char} (h : GoodRepr repr) (t t' : List E)
 theorem listStr_cons (repr : E → List Char) (t : List E) : ∃ x, listStr repr t = '[' :: x := by
   cases t <;> simp [listStr]
 
-theorem split_at_bracket : ∀ (a a' x x' : List Char), '[' ∉ a → '[' ∉ a' →
-    a ++ '[' :: x = a' ++ '[' :: x' → a = a' ∧ x = x' := by
+/-- two texts that agree and whose heads do not contain `ch` agree up to the first `ch` and after it -/
+theorem split_at_char (ch : Char) : ∀ (a a' x x' : List Char), ch ∉ a → ch ∉ a' →
+    a ++ ch :: x = a' ++ ch :: x' → a = a' ∧ x = x' := by
   intro a
   induction a with
   | nil =>
@@ -230,10 +232,45 @@ theorem split_at_bracket : ∀ (a a' x x' : List Char), '[' ∉ a → '[' ∉ a'
         (by intro hm; exact h' (by simp [hm])) h2
       exact ⟨rfl, h3⟩
 
+theorem split_at_bracket : ∀ (a a' x x' : List Char), '[' ∉ a → '[' ∉ a' →
+    a ++ '[' :: x = a' ++ '[' :: x' → a = a' ∧ x = x' := split_at_char '['
+
+/-- the repaired key text is injective in all four components; nothing is needed of the configuration
+text: the two list renderings are self-delimiting, what follows them is the configuration text -/
 theorem keyText_inj {repr : E → List Char} (h : GoodRepr repr) (c c' : List Char) (hc : '[' ∉ c)
-    (hc' : '[' ∉ c') (ts ts' tr tr' : List E)
-    (he : keyText repr c ts tr = keyText repr c' ts' tr') : c = c' ∧ ts = ts' ∧ tr = tr' := by
+    (hc' : '[' ∉ c') (ts ts' tr tr' : List E) (g g' : List Char)
+    (he : keyText repr c ts tr g = keyText repr c' ts' tr' g') :
+    c = c' ∧ ts = ts' ∧ tr = tr' ∧ g = g' := by
   unfold keyText at he
+  obtain ⟨x, hx⟩ := listStr_cons repr ts
+  obtain ⟨x', hx'⟩ := listStr_cons repr ts'
+  have he' := he
+  rw [hx, hx'] at he'
+  simp only [List.cons_append] at he'
+  obtain ⟨rfl, _⟩ := split_at_bracket c c' _ _ hc hc' he'
+  have h2 := List.append_cancel_left he
+  obtain ⟨rfl, h3⟩ := listStr_inj h ts ts' _ _ h2
+  obtain ⟨rfl, h4⟩ := listStr_inj h tr tr' _ _ h3
+  exact ⟨rfl, rfl, rfl, h4⟩
+
+/-- Python's `str((quad_order, pw_exact))` determines `quad_order` and `pw_exact` -/
+theorem cfgText_inj (q q' : Nat) (p p' : Bool) (he : cfgText q p = cfgText q' p') : q = q' ∧ p = p' := by
+  have hd : ∀ n : Nat, ',' ∉ Nat.toDigits 10 n := by
+    intro n hm
+    have := Nat.isDigit_of_mem_toDigits (by decide) (by decide) hm
+    exact absurd this (by decide)
+  unfold cfgText at he
+  simp only [List.cons.injEq, true_and] at he
+  obtain ⟨hq, hp⟩ := split_at_char ',' _ _ _ _ (hd q) (hd q') he
+  refine ⟨Nat.repr_injective (String.toList_inj.mp (by simpa using hq)), ?_⟩
+  revert hp
+  cases p <;> cases p' <;> simp
+
+/-- the key text before the repair of finding F7 is injective on (curve, tests, trials) -/
+theorem keyTextUnfixed_inj {repr : E → List Char} (h : GoodRepr repr) (c c' : List Char) (hc : '[' ∉ c)
+    (hc' : '[' ∉ c') (ts ts' tr tr' : List E)
+    (he : keyTextUnfixed repr c ts tr = keyTextUnfixed repr c' ts' tr') : c = c' ∧ ts = ts' ∧ tr = tr' := by
+  unfold keyTextUnfixed at he
   obtain ⟨x, hx⟩ := listStr_cons repr ts
   obtain ⟨x', hx'⟩ := listStr_cons repr ts'
   have he' := he
